@@ -84,3 +84,41 @@ def lists_module(E):
             % (it, it, D.inst(E), D.inst(E), D.inst(E), E["id"], E["id"]))
     src += "}\n"
     return src
+
+
+# --------------------------------------------------------------------------- EnumTable (C10)
+def table_def(did, mask, idents=None):
+    idents = idents or IDS
+    vs = [variant(idents[i], dis=bool(m)) for i, m in enumerate(mask)]
+    return enum(did, vs)
+
+
+def table_module(E, depth, steps):
+    n = E["name"]
+    en = [i + 1 for i, v in enumerate(E["variants"]) if not v["dis"]]
+    dis = [i + 1 for i, v in enumerate(E["variants"]) if v["dis"]]
+    src = SG.HEADER + D.print_enum(E, ["EnumTable"], std_derives=("Debug", "Clone", "Copy", "PartialEq")) + "\n" + D.helper_impl(E) + "\n"
+    src += "fn key(i: usize) -> %s { match i { %s _ => unreachable!() } }\n" % (
+        n, " ".join("%d => %s::%s," % (i + 1, n, uncp(v["id"])) for i, v in enumerate(E["variants"])))
+    src += "fn pos(i: usize) -> usize { match i { %s _ => unreachable!() } }\n" % " ".join("%d => %d," % (k, p) for p, k in enumerate(en))
+    proj = "vec![%s]" % ", ".join("t[key(%d)]" % k for k in en)
+    src += ("impl TableOps for %sTable<u8> {\n"
+            "    fn enabled() -> Vec<usize> { vec![%s] }\n"
+            "    fn disabled() -> Vec<usize> { vec![%s] }\n"
+            "    fn new_from(a: &[u8]) -> Self { %sTable::new(%s) }\n"
+            "    fn filled(x: u8) -> Self { %sTable::filled(x) }\n"
+            "    fn from_closure(f: &dyn Fn(usize) -> u8) -> Self { %sTable::from_closure(|k: %s| f(k.decl_index())) }\n"
+            "    fn transform(&self, f: &dyn Fn(usize, u8) -> u8) -> Self { %sTable::transform(self, |k: %s, old: &u8| f(k.decl_index(), *old)) }\n"
+            "    fn read(&self, k: usize) -> u8 { self[key(k)] }\n"
+            "    fn write(&mut self, k: usize, v: u8) { self[key(k)] = v; }\n"
+            "    fn all(mask: &[bool]) -> Option<Vec<u8>> {\n"
+            "        let t: %sTable<Option<u8>> = %sTable::from_closure(|k: %s| { let p = pos(k.decl_index()); if mask[p] { Some(11 + p as u8) } else { None } });\n"
+            "        t.all().map(|t| %s)\n    }\n"
+            "    fn all_ok(mask: &[bool]) -> Result<Vec<u8>, u8> {\n"
+            "        let t: %sTable<Result<u8, u8>> = %sTable::from_closure(|k: %s| { let p = pos(k.decl_index()); if mask[p] { Ok(11 + p as u8) } else { Err(1 + p as u8) } });\n"
+            "        t.all_ok().map(|t| %s)\n    }\n"
+            "    fn default_table() -> Self { Default::default() }\n"
+            "}\n" % (n, ", ".join(map(str, en)), ", ".join(map(str, dis)), n, ", ".join("a[%d]" % p for p in range(len(en))),
+                     n, n, n, n, n, n, n, n, proj, n, n, n, proj))
+    src += RUN + "    table_drive::<%sTable<u8>>(o, %d, %d, %d, seed);\n}\n" % (n, E["id"], depth, steps)
+    return src
